@@ -66,7 +66,8 @@ Logged ==
   \/ (Is("DocStoreUpdated") /\ mpc = "unlocked" /\ cur.d = E.d /\ E.free = ~vfsW /\ vfsText[E.d] = Tok(E.tok) /\ Obs0)
   \/ (Is("ApplyBegin") /\ E.free = ~vfsW /\ M_RequestCancel)
   \/ (Is("ApplyEnd") /\ M_SetInputs)
-  \/ (Is("Spawn") /\ E.kind = "req" /\ cur.id = E.t /\ M_SpawnTask)
+  \* the snapshot is taken for the text the client issued the request against (FIFO, edits applied inline)
+  \/ (Is("Spawn") /\ E.kind = "req" /\ cur.id = E.t /\ (E.tok = "" \/ dbText[cur.d] = Tok(E.tok)) /\ M_SpawnTask)
   \/ (Is("Spawn") /\ E.kind = "diag" /\ M_SpawnDiagT(E.t) /\ tasks'[E.t].d = E.d)
   \/ (Is("TaskStart") /\ T_Start(E.t))
   \/ (Is("ReadVfs") /\ E.t \in DOMAIN tasks /\ vfsText[tasks[E.t].d] = Tok(E.tok) /\ T_ReadVfs(E.t))
@@ -75,7 +76,7 @@ Logged ==
   \/ (Is("ConvertVfs") /\ E.t \in DOMAIN tasks /\ vfsText[tasks[E.t].d] = Tok(E.tok) /\ T_ConvertWithVfs(E.t))
   \/ (Is("TaskReturn") /\ E.t \in DOMAIN tasks /\ tasks[E.t].st = "ret"
         /\ (T_Return(E.t) \/ D_Return(E.t)) /\ tasks'[E.t].res = E.res /\ Mon(E.t))
-  \/ (Is("TaskReturn") /\ (E.t \notin DOMAIN tasks \/ tasks[E.t].st = "returned") /\ Obs0)      \* returned silently before
+  \/ (Is("TaskReturn") /\ (IF E.t \in DOMAIN tasks THEN tasks[E.t].st = "returned" ELSE TRUE) /\ Obs0)      \* returned silently before
   \/ (Is("DiagEmit") /\ \E t \in DOMAIN tasks : tasks[t].d = E.d /\ D_EmitT(t))
   \/ (Is("Publish") /\ evq # <<>> /\ Head(evq).d = E.d /\ E_Publish)
   \* the client is quiet: every request answered once, texts converged; diagnostics provenance is reported
